@@ -1069,3 +1069,6 @@ def run_case(r, obs):
             else:
                 obs.count("violations_beyond_the_first_%d_per_mechanism_and_worker" % MAX_PER_MECH)
         obs.violations[:] = kept
+
+
+RULE += (' Sum and Mean are also filled with Decimal, Fraction and bool data; Vectorize components include a multi-result StoreFilled; results are consumed by a streaming consumer that changes every received context in place (except StoreFilled / GroupBy, whose results are the filled values).')
